@@ -921,6 +921,10 @@ def check_equiv(case, acc):
     acc.case(("ok-changed" if changed else "ok-same-as-default") + ("-unknown-filter-skipped" if has_unknown else ""),
              nontrivial=changed or bool(case.get("structural")), key=_jkey(job))
   else:
+    if case.get("documented"):
+      # the configuration holds documented values only: `tt convert` and the library agree, but on an error
+      acc.violation("C19.accept", case["documented"], {"job": job, "documented": case["documented"]}, observed=ref_val[:200], expected="the conversion succeeds",
+                    note="a configuration made of documented values is rejected (by the command and by the library's own parser alike)")
     acc.case("both-error:" + ref_val.split(":")[0], nontrivial=True, key=_jkey(job))
 
 
@@ -934,7 +938,10 @@ def fam_equiv_config(inputs):
   def decode(i):
     inp, out, ci, fl = prod.decode(i)
     _label, cfg = CONFIGS[ci]
-    return {"job": mk_job(inp, out, config=copy.deepcopy(cfg), filters=fl)}
+    # (time_format has documented dependencies on fps - frames need a rate, clock_time_with_frames an integer one -, so a
+    # documented value of it alone may be rejected legitimately)
+    return {"job": mk_job(inp, out, config=copy.deepcopy(cfg), filters=fl),
+            "documented": None if _label.startswith("imsc_writer.time_format") else _label}
   return Family("equiv-config", prod.n, decode, check_equiv, timeout=60,
                 note="inputs x outputs x configurations (one key at a time, per-module products, cross product) x {[],[lcd]}, --config")
 
